@@ -1,17 +1,17 @@
 package main
 
 import (
-	"encoding/binary"
-	"runtime"
 	"bytes"
 	"crypto"
 	stdecdsa "crypto/ecdsa"
 	stded "crypto/ed25519"
 	"crypto/elliptic"
+	"encoding/binary"
 	"errors"
 	"fmt"
 	"io"
 	"math/big"
+	"runtime"
 	"strings"
 
 	"github.com/cloudflare/circl/expander"
@@ -496,7 +496,7 @@ func runC14(c *Ctx) {
 		"26e8958fc2b227b045c3f489f2ef98f0d5dfac05d3c63339b13802886d53fc85",
 		"c7176a703d4dd84fba3c0b760d10670f2a2053fa2c39ccc64ec7fd7792ac037a",
 		"c7176a703d4dd84fba3c0b760d10670f2a2053fa2c39ccc64ec7fd7792ac03fa",
-		"0100000000000000000000000000000000000000000000000000000000000080", // identity with sign bit
+		"0100000000000000000000000000000000000000000000000000000000000080",   // identity with sign bit
 		"eeffffffffffffffffffffffffffffffffffffffffffffffffffffffffffffff7f", // y = p + 1
 		"edffffffffffffffffffffffffffffffffffffffffffffffffffffffffffffff7f", // y = p
 		"ffffffffffffffffffffffffffffffffffffffffffffffffffffffffffffffff7f",
@@ -517,7 +517,13 @@ func runC14(c *Ctx) {
 		if i%4 != 0 && !c.Thorough() {
 			continue
 		}
-		S := new(big.Int).SetBytes(func() []byte { b := append([]byte{}, sig[32:]...); for i, j := 0, 31; i < j; i, j = i+1, j-1 { b[i], b[j] = b[j], b[i] }; return b }())
+		S := new(big.Int).SetBytes(func() []byte {
+			b := append([]byte{}, sig[32:]...)
+			for i, j := 0, 31; i < j; i, j = i+1, j-1 {
+				b[i], b[j] = b[j], b[i]
+			}
+			return b
+		}())
 		withS := func(x *big.Int) []byte {
 			if x.BitLen() > 256 {
 				x = new(big.Int).Mod(x, new(big.Int).Lsh(big.NewInt(1), 256))
@@ -573,7 +579,13 @@ func runC14(c *Ctx) {
 	two256 := new(big.Int).Lsh(big.NewInt(1), 256)
 	for _, tm := range edSmallMultiples {
 		tLE, R := unhx(tm[0]), unhx(tm[1])
-		t := new(big.Int).SetBytes(func() []byte { b := append([]byte{}, tLE...); for i, j := 0, 31; i < j; i, j = i+1, j-1 { b[i], b[j] = b[j], b[i] }; return b }())
+		t := new(big.Int).SetBytes(func() []byte {
+			b := append([]byte{}, tLE...)
+			for i, j := 0, 31; i < j; i, j = i+1, j-1 {
+				b[i], b[j] = b[j], b[i]
+			}
+			return b
+		}())
 		msg := r.Bytes(r.IntN(40))
 		mk := func(x *big.Int) []byte { return append(append([]byte{}, R...), le(x)...) }
 		in := map[string]any{"t": tm[0], "R": tm[1]}
